@@ -1,3 +1,70 @@
-From ADF Require Import Adf.NoGood.
-Theorem placeholder : True. Proof. exact I. Qed.
-Print Assumptions placeholder.
+(** C18 - Nogood store: sound deductions, no spurious conflicts, nothing forgotten.
+    Statements only; proofs in Adf/NoGoodProofs.v.  A total assignment [a] MATCHES a nogood when it
+    agrees with all its assigned positions; [stored s] are the nogoods currently in the store. *)
+From Coq Require Import NArith List Bool.
+From ADF Require Import Spec.Spec Bdd.Store Adf.NoGood Adf.NoGoodProofs.
+Import ListNotations.
+
+(** the conclusions contain only assignments forced by the stored nogoods (and keep what is given) *)
+Theorem C18_conclusions_sound : forall s I R, buckets_ok s -> conclusions s I = Some R ->
+  ng_sub I R /\ forall a, matches I a -> avoids (stored s) a -> matches R a.
+Proof. exact conclusions_sound. Qed.
+Print Assumptions C18_conclusions_sound.
+
+(** a conflict is reported only if no total extension of the interpretation avoids all stored nogoods *)
+Theorem C18_no_spurious_conflict : forall s I, buckets_ok s -> conclusions s I = None ->
+  forall a, matches I a -> excluded (stored s) a.
+Proof. exact conflict_sound. Qed.
+Print Assumptions C18_no_spurious_conflict.
+
+(** ... and always when the interpretation itself matches a stored nogood *)
+Theorem C18_conflict_on_match : forall s I g, buckets_ok s -> In g (stored s) -> is_violating g I = true ->
+  conclusions s I = None.
+Proof. exact conflict_on_match. Qed.
+Print Assumptions C18_conflict_on_match.
+
+(** nothing forgotten, in all three duplicate-elimination modes: after any sequence of additions
+    the store excludes exactly the assignments excluded by the added nogoods.  The side condition
+    excludes the EMPTY nogood, which the code silently ignores (C18_empty_nogood_ignored; known
+    finding, see KNOWN_FINDINGS.txt) *)
+Theorem C18_nothing_forgotten : forall n m l s',
+  Forall (fun g => ng_len g <> O) l ->
+  add_all (mkNS (buckets (ngs_new n)) m) l = Some s' ->
+  forall a, excluded (stored s') a <-> excluded l a.
+Proof. exact add_seq_excluded. Qed.
+Print Assumptions C18_nothing_forgotten.
+Theorem C18_one_addition : forall s g s', buckets_ok s -> add_ng s g = Some s' -> ng_len g <> O ->
+  forall a, excluded (stored s') a <-> (excluded (stored s) a \/ matches g a).
+Proof. exact add_ng_excluded. Qed.
+Print Assumptions C18_one_addition.
+Theorem C18_empty_nogood_ignored : forall s g, ng_len g = O -> add_ng s g = Some s.
+Proof. exact add_ng_empty_ignored. Qed.
+Print Assumptions C18_empty_nogood_ignored.
+Theorem C18_store_invariant : forall s g s', buckets_ok s -> add_ng s g = Some s' ->
+  buckets_ok s' /\ dup s' = dup s /\ length (buckets s') = length (buckets s).
+Proof. exact add_ng_ok. Qed.
+Print Assumptions C18_store_invariant.
+
+(** the closure of the conclusions used by the search *)
+Theorem C18_closure_sound : forall s v, buckets_ok s -> forall r, conclusion_closure s v = Some r ->
+  match r with
+  | CInconsistent => forall a, matches (ng_of_terms v) a -> excluded (stored s) a
+  | CNoUpdate => True
+  | CUpdate w => length w = length v /\ ng_sub (ng_of_terms v) (ng_of_terms w) /\
+                 (forall i, is_tv (nth i v 2%N) = false -> is_tv (nth i w 2%N) = false -> nth i w 2%N = nth i v 2%N) /\
+                 forall a, matches (ng_of_terms v) a -> avoids (stored s) a -> matches (ng_of_terms w) a
+  end.
+Proof. exact closure_sound. Qed.
+Print Assumptions C18_closure_sound.
+Theorem C18_closure_total : forall s v, exists r, conclusion_closure s v = Some r.
+Proof. exact closure_total. Qed.
+Print Assumptions C18_closure_total.
+
+(** non-vacuity: the same literal derived by two buckets is not a conflict (the defect repaired in
+    /repo by "fix: NoGoodStore::conclusions ..."); Subsume keeps the stronger nogood *)
+Example C18_two_buckets_same_literal :
+  exists s, add_all (ngs_new 3) [[T;T]; [T;T;T]] = Some s /\ conclusions s [T;U;T] = Some [T;F;T].
+Proof. eexists. split; vm_compute; reflexivity. Qed.
+Example C18_subsume_keeps_stronger :
+  exists s, add_all (mkNS (buckets (ngs_new 2)) DSubsume) [[T]; [T;T]] = Some s /\ stored s = [[T]].
+Proof. eexists. split; vm_compute; reflexivity. Qed.
